@@ -2,6 +2,7 @@
 From Coq Require Import List NArith.
 From PatVerif Require Import Base.Bytes Base.Der Model.TokenKey Gen.Src.
 Import ListNotations. Open Scope N_scope.
+Ltac t := vm_compute; first [reflexivity | exact I | repeat split; reflexivity].
 (** DER content octets of an OBJECT IDENTIFIER: 40*a1 + a2, then base-128 with continuation bits (arcs below 2^28 here) *)
 Definition b128 (v : N) : list N :=
   (if 2097152 <=? v then [128 + (v / 2097152) mod 128] else []) ++
@@ -9,8 +10,8 @@ Definition b128 (v : N) : list N :=
   (if 128 <=? v then [128 + (v / 128) mod 128] else []) ++ [v mod 128].
 Definition oid_content (arcs : list N) : list byte :=
   match arcs with a1 :: a2 :: rest => map n2b ((40 * a1 + a2) :: flat_map b128 rest) | _ => [] end.
-Example tie_oid_pss : tlv x06 (oid_content s_oid_pss) = oid_rsassa_pss. Proof. vm_compute. reflexivity. Qed.
-Example tie_oid_sha384 : tlv x06 (oid_content s_oid_sha384) = oid_sha384. Proof. vm_compute. reflexivity. Qed.
-Example tie_oid_mgf1 : tlv x06 (oid_content s_oid_mgf1) = oid_mgf1. Proof. vm_compute. reflexivity. Qed.
-Example tie_salt : alg_pss = der_seq (oid_rsassa_pss ++ der_seq (tlv xa0 (der_seq oid_sha384) ++ tlv xa1 (der_seq (oid_mgf1 ++ der_seq oid_sha384)) ++ tlv xa2 (der_int s_pss_salt))).
-Proof. vm_compute. reflexivity. Qed.
+Example tie_oid_pss : tie s_oid_pss (fun a => tlv x06 (oid_content a) = oid_rsassa_pss). Proof. t. Qed.
+Example tie_oid_sha384 : tie s_oid_sha384 (fun a => tlv x06 (oid_content a) = oid_sha384). Proof. t. Qed.
+Example tie_oid_mgf1 : tie s_oid_mgf1 (fun a => tlv x06 (oid_content a) = oid_mgf1). Proof. t. Qed.
+Example tie_salt : tie s_pss_salt (fun sl => alg_pss = der_seq (oid_rsassa_pss ++ der_seq (tlv xa0 (der_seq oid_sha384) ++ tlv xa1 (der_seq (oid_mgf1 ++ der_seq oid_sha384)) ++ tlv xa2 (der_int sl)))).
+Proof. t. Qed.
